@@ -67,7 +67,9 @@ def gen_program(r, idx):
     """a small module; returns (files, expected locations relative to module root, description)"""
     pkgdir = r.choice(['', 'sub', 'sub/pkg/deep'])
     pkgname = 'prog' if not pkgdir else pkgdir.split('/')[-1]
-    shape = r.choice(['direct', 'helper-nontest', 'closure', 'goroutine', 'subtest', 'deep-helpers', 'standalone', 'config', 'suite-nontest', 'deep-recursion', 'dotted-names'])
+    shapes = sorted(set(['direct', 'helper-nontest', 'closure', 'goroutine', 'subtest', 'deep-helpers', 'standalone', 'config', 'suite-nontest', 'deep-recursion', 'dotted-names', 'shared-helper', 'shared-helper']))
+    # every shape at least once per run, then random ones
+    shape = shapes[idx] if idx < len(shapes) else r.choice(shapes)
     tf = 'x%d_test.go' % idx
     files = {'go.mod': GOMOD}
     imports = ['"testing"', '"github.com/gkampitakis/go-snaps/snaps"']
@@ -84,6 +86,15 @@ def gen_program(r, idx):
         files[posixpath.join(pkgdir, 'helper.go')] = helper
         body = 'func TestShape(t *testing.T) {\n\tcheck(t, "v")\n}\n'
         exp.append(posixpath.join(base, stem + '.snap'))
+    elif shape == 'shared-helper':
+        # ONE call site in a non-test file, reached from tests of TWO test files (and from a subtest):
+        # each snapshot belongs to the test file it was reached from, whatever ran first
+        files[posixpath.join(pkgdir, 'helper.go')] = 'package %s\n\nimport (\n\t"testing"\n\t"github.com/gkampitakis/go-snaps/snaps"\n)\n\nfunc check(t *testing.T, v any) {\n\tt.Helper()\n\tsnaps.MatchSnapshot(t, v)\n\tsnaps.MatchStandaloneSnapshot(t, v)\n}\n' % pkgname
+        other = 'y%d_test.go' % idx
+        files[posixpath.join(pkgdir, other)] = 'package %s\n\nimport "testing"\n\nfunc TestOther(t *testing.T) {\n\tcheck(t, "o")\n\tt.Run("sub", func(t *testing.T) { check(t, "os") })\n}\n' % pkgname
+        body = 'func TestShape(t *testing.T) {\n\tcheck(t, "v")\n}\n\nfunc TestZLast(t *testing.T) {\n\tcheck(t, "z")\n}\n'
+        exp += [posixpath.join(base, stem + '.snap'), posixpath.join(base, other[:-3] + '.snap'), posixpath.join(base, 'TestShape_1.snap'),
+                posixpath.join(base, 'TestZLast_1.snap'), posixpath.join(base, 'TestOther_1.snap'), posixpath.join(base, 'TestOther_sub_1.snap')]
     elif shape == 'suite-nontest':
         # the subtest body is a function of a non-test file: below testing.tRunner there is no
         # *_test.go frame, the outermost user file names the snapshot
